@@ -131,9 +131,11 @@ class Scope(object):
 
   @property
   def referenced(self):
+    # Symbols that are only written are referenced as well: a generated symbol
+    # with the same name would be overwritten by the user's assignment.
     if self.parent is not None:
-      return self.read | self.parent.referenced
-    return self.read
+      return self.read | self.bound | self.parent.referenced
+    return self.read | self.bound
 
   @property
   def free_vars(self):
